@@ -19,17 +19,47 @@ def sh(cmd, cwd=None, env=None, timeout=3600):
     return p.returncode, (p.stdout + p.stderr)
 
 
+def recheck(ids):
+    """python -m harness.seed --recheck [ids…]: rebuild a scratch worktree of /repo HEAD per kept change, apply its patch there,
+    and run the whole confirmation again (demo both ways, baseline, the checks against /repo with the change applied)."""
+    import tempfile
+    ids = ids or sorted(d.name for d in (VERIF / "seeded").iterdir() if (d / "meta.json").exists())
+    for sid in ids:
+        dest = VERIF / "seeded" / sid
+        old = json.loads((dest / "meta.json").read_text())
+        wt = Path(tempfile.mkdtemp(prefix="verif_seed_")) / "wt"
+        try:
+            rc, out = sh(["git", "-C", "/repo", "worktree", "add", "--detach", str(wt), "HEAD"])
+            assert rc == 0, out
+            pid = old["breaks_property"]
+            shutil.copy(dest / "patch.diff", wt / f"patch_{pid}.diff")
+            shutil.copy(dest / old["demonstration"], wt / old["demonstration"])
+            rc, out = sh(["git", "apply", f"patch_{pid}.diff"], cwd=wt)
+            assert rc == 0, out
+            one(sid, wt, [pid] + [p for p in old.get("checks", {}) if p != pid], keep={k: old[k] for k in ("needs_to_manifest",) if k in old})
+        finally:
+            sh(["git", "-C", "/repo", "worktree", "remove", "--force", str(wt)])
+            shutil.rmtree(wt.parent, ignore_errors=True)
+
+
 def main():
-    sid, wt, props = sys.argv[1], Path(sys.argv[2]), sys.argv[3:]
+    if sys.argv[1] == "--recheck":
+        return recheck(sys.argv[2:])
+    one(sys.argv[1], Path(sys.argv[2]), sys.argv[3:])
+
+
+def one(sid, wt, props, keep=None):
     pid = props[0]
     dest = VERIF / "seeded" / sid
     dest.mkdir(parents=True, exist_ok=True)
     patch = next(wt.glob("patch_*.diff"))
     demo = next(wt.glob("demo_*.py"))
-    shutil.copy(patch, dest / "patch.diff")
-    shutil.copy(demo, dest / demo.name)
+    if patch.resolve() != (dest / "patch.diff").resolve():
+        shutil.copy(patch, dest / "patch.diff")
+    if demo.resolve() != (dest / demo.name).resolve():
+        shutil.copy(demo, dest / demo.name)
     env = {"PYTHONPATH": str(wt / "src"), "PATH": "/usr/bin:/bin"}
-    meta = {"seed": sid, "breaks_property": pid, "patch": "patch.diff", "demonstration": demo.name, "ran": []}
+    meta = {"seed": sid, "breaks_property": pid, "patch": "patch.diff", "demonstration": demo.name, **(keep or {}), "ran": []}
     # 1. demo on the changed worktree and on the unchanged one
     rc_with, out_with = sh(["/venv/bin/python", str(demo)], cwd=wt, env=env)
     sh(["git", "apply", "-R", str(patch)], cwd=wt)
